@@ -293,7 +293,7 @@ package clusters
 
 //@ const notSkipped = !old(c.skipSyncEndpoints)
 
-//@ func (*ClusterInfo).syncEndpoints props C03, C11, C15
+//@ func (*ClusterInfo).syncEndpoints props C03, C11, C14, C15
 //@   requires [wf] epsWF && (c.skipSyncEndpoints || c.restConfig != nil)
 //@   requires [inj] epsInj
 //@   modifies smap(&c.Endpoints.data), c.loadbalancer, smap(&c.loadbalancer), fields("endpointStatus", "Disabled"), fields("EndpointInfo", "healthCheckCh"), fields("EndpointInfo", "cancelHealthCheck"), cancelled, probectx, gsmem, gsalive
@@ -304,6 +304,7 @@ package clusters
 //@   ensures [disabled_latest] notSkipped && result == nil ==> forall i int :: {servers[i]} 0 <= i && i < len(servers) ==> unbox(smget(EPC, box(servers[i].Endpoint)), "*EndpointInfo").status.Disabled == (exists j int :: {servers[j]} 0 <= j && j < len(servers) && servers[j].Endpoint == servers[i].Endpoint && servers[j].Disabled != nil && *servers[j].Disabled)
 //@   ensures [removed_cancelled] forall k ref :: {smhas(EPC, k)} old(smhas(EPC, k)) && !smhas(EPC, k) && old(unbox(smget(EPC, k), "*EndpointInfo").cancel) != nil ==> cancelled[old(unbox(smget(EPC, k), "*EndpointInfo").cancel)]
 //@   ensures [listed_kept] notSkipped ==> forall k ref :: {smhas(EPC, k)} old(smhas(EPC, k)) && serverListed(servers, unbox(k, "string")) ==> smhas(EPC, k) && smget(EPC, k) == old(smget(EPC, k))
+//@   ensures [cursors_kept_if_same_set] (forall k ref :: {old(smhas(EPC, k))} old(smhas(EPC, k)) <==> typeis(k, "string") && serverListed(servers, unbox(k, "string"))) ==> forall k2 ref :: {smhas(&c.loadbalancer, k2)} smhas(&c.loadbalancer, k2) == old(smhas(&c.loadbalancer, k2)) && smget(&c.loadbalancer, k2) == old(smget(&c.loadbalancer, k2))
 //@   loop 0: invariant [bounds] 0 <= idx && idx <= len(servers)
 //@   loop 0: invariant [wanted] forall x ref :: {x in gsmem[wantedEPs]} (x in gsmem[wantedEPs]) <==> typeis(x, "string") && serverListed(take(servers, idx), unbox(x, "string"))
 //@   loop 0: invariant [current] currentEPs != wantedEPs && forall x ref :: {x in gsmem[currentEPs]} (x in gsmem[currentEPs]) <==> smhas(EPC, x)
